@@ -3,6 +3,7 @@ package lp
 import (
 	"fmt"
 
+	"verif/harness/cborref"
 	"verif/harness/jsonref"
 )
 
@@ -23,16 +24,82 @@ func Check(p *Program, mode string) []Issue {
 }
 
 func CheckResult(p *Program, res Result, mode string) []Issue {
+	return checkResult(p, res, mode, jsonCodec{p})
+}
+
+// CheckCBOR is Check for the binary_log build: every write must be exactly one
+// well-formed CBOR item (an indefinite-length map with text keys) carrying the expected
+// fields in zerolog's documented representation.
+func CheckCBOR(p *Program, mode string) []Issue {
+	res := Run(p)
+	return checkResult(p, res, mode, cborCodec{})
+}
+
+func CheckResultCBOR(p *Program, res Result, mode string) []Issue {
+	return checkResult(p, res, mode, cborCodec{})
+}
+
+type codec interface {
+	parse(w Write) (interface{}, error)
+	match(h interface{}, exp []ExpField, mode string, m Model) string
+}
+
+type jsonCodec struct{ p *Program }
+
+func (jsonCodec) parse(w Write) (interface{}, error) { return jsonref.ValidateLine(w.Data) }
+func (jsonCodec) match(h interface{}, exp []ExpField, mode string, m Model) string {
+	n := h.(*jsonref.Node)
+	switch mode {
+	case "values":
+		return ContainsFields(n.O, exp)
+	case "layout":
+		if d := MatchFields(n.O, exp, false); d != "" {
+			return d
+		}
+		for k, f := range exp {
+			if f.V.Role != "" {
+				if d := Match(n.O[k].Val, f.V); d != "" {
+					return fmt.Sprintf("%s field %q: %s", f.V.Role, f.Key, d)
+				}
+			}
+		}
+		return ""
+	}
+	return MatchFields(n.O, exp, true)
+}
+
+type cborCodec struct{}
+
+func (cborCodec) parse(w Write) (interface{}, error) {
+	it, err := cborref.ParseExactly(w.Data)
+	if err != nil {
+		return nil, err
+	}
+	if it.Kind != cborref.Map || !it.Indef {
+		return nil, fmt.Errorf("event is not an indefinite-length map: %s", it)
+	}
+	for i := 0; i < len(it.Items); i += 2 {
+		if it.Items[i].Kind != cborref.Text {
+			return nil, fmt.Errorf("map key %d is not a text string: %s", i/2, it.Items[i])
+		}
+	}
+	return it, nil
+}
+func (cborCodec) match(h interface{}, exp []ExpField, mode string, m Model) string {
+	return MatchFieldsCBOR(h.(*cborref.Item), exp)
+}
+
+func checkResult(p *Program, res Result, mode string, cd codec) []Issue {
 	var out []Issue
 	if res.Panic != nil {
 		return []Issue{{"panic", fmt.Sprintf("panic while logging: %v", res.Panic)}}
 	}
-	nodes := make([][]*jsonref.Node, len(res.Dests))
+	nodes := make([][]interface{}, len(res.Dests))
 	for d, ws := range res.Dests {
 		for i, w := range ws {
-			n, err := jsonref.ValidateLine(w.Data)
+			n, err := cd.parse(w)
 			if err != nil {
-				return []Issue{{"invalid", fmt.Sprintf("write %d to destination %d is not one well-formed JSON line: %v: %q", i, d, err, w.Data)}}
+				return []Issue{{"invalid", fmt.Sprintf("write %d to destination %d is not one well-formed event: %v: %q", i, d, err, w.Data)}}
 			}
 			nodes[d] = append(nodes[d], n)
 		}
@@ -40,7 +107,7 @@ func CheckResult(p *Program, res Result, mode string) []Issue {
 	if mode == "valid" {
 		return nil
 	}
-	m := Model{Set: p.Set}
+	m := Model{Set: p.Set, StrictCtx: mode == "fullctx"}
 	root := &LoggerModel{Level: -1}
 	lms := make([]*LoggerModel, len(p.Steps))
 	get := func(i int) *LoggerModel {
@@ -68,33 +135,16 @@ func CheckResult(p *Program, res Result, mode string) []Issue {
 		}
 		k := wi[dest]
 		wi[dest]++
-		n := nodes[dest][k]
 		w := res.Dests[dest][k]
 		if got := int(w.Level); got != exp.Level {
 			out = append(out, Issue{"gate", fmt.Sprintf("event %d: WriteLevel got level %d, want %d", ei, got, exp.Level)})
 		}
-		switch mode {
-		case "values":
-			if d := ContainsFields(n.O, exp.Fields); d != "" {
-				out = append(out, Issue{"value", fmt.Sprintf("event %d: %s; line %q", ei, d, w.Data)})
+		if d := cd.match(nodes[dest][k], exp.Fields, mode, m); d != "" {
+			kind := map[string]string{"values": "value", "layout": "layout"}[mode]
+			if kind == "" {
+				kind = "full"
 			}
-		case "layout":
-			if d := MatchFields(n.O, exp.Fields, false); d != "" {
-				out = append(out, Issue{"layout", fmt.Sprintf("event %d: %s; line %q", ei, d, w.Data)})
-			} else {
-				// level and message values
-				for k, f := range exp.Fields {
-					if f.V.Role != "" {
-						if d := Match(n.O[k].Val, f.V); d != "" {
-							out = append(out, Issue{"layout", fmt.Sprintf("event %d: %s field %q: %s; line %q", ei, f.V.Role, f.Key, d, w.Data)})
-						}
-					}
-				}
-			}
-		default:
-			if d := MatchFields(n.O, exp.Fields, true); d != "" {
-				out = append(out, Issue{"full", fmt.Sprintf("event %d: %s; line %q", ei, d, w.Data)})
-			}
+			out = append(out, Issue{kind, fmt.Sprintf("event %d: %s; line %q", ei, d, w.Data)})
 		}
 	}
 	dests := map[int]int{}
@@ -120,14 +170,14 @@ func CheckResult(p *Program, res Result, mode string) []Issue {
 			out = append(out, Issue{"gate", fmt.Sprintf("destination %d received %d writes, expected %d", d, len(nodes[d]), wi[d])})
 		}
 	}
-	if mode == "layout" || mode == "full" {
+	if mode == "layout" || mode == "full" || mode == "fullctx" {
 		got := res.Rt.HookCalls
 		if len(got) != len(wantCalls) {
 			out = append(out, Issue{"hook", fmt.Sprintf("hook invocations: got %d %v, want %d %v", len(got), got, len(wantCalls), wantCalls)})
 		} else {
 			for i := range got {
 				g, w := got[i], wantCalls[i]
-				if g.ID != w.ID || g.Msg != w.Msg || g.Level != w.Level {
+				if g.ID != w.ID || g.Msg != w.Msg || g.Level != w.Level || (mode == "fullctx" && g.Ctx != w.Ctx) {
 					out = append(out, Issue{"hook", fmt.Sprintf("hook invocation %d: got %+v, want %+v", i, g, w)})
 					break
 				}
